@@ -36,6 +36,7 @@ enum : unsigned { kCtorInt = 1, kCopyCtor = 2, kMoveCtor = 4, kCopyAsg = 8, kMov
 int g_countdown = -1; // -1: never throw; 0: the next eligible element operation throws
 unsigned g_mask = ~0u;
 unsigned g_throws = 0;
+long long g_keep_size = -1; // set by an append-at-the-end scenario: std::vector gives the strong guarantee there, the size must not change when it throws
 inline void maybe_throw(unsigned kind)
 {
     if (!(g_mask & kind)) { return; }
@@ -133,6 +134,10 @@ void inject(char const* subj, char const* op, char const* sit, unsigned mask, Bu
                 threw = true;
             }
             g_countdown = -1;
+            if constexpr (requires { o->size(); }) {
+                if (threw && g_keep_size >= 0) { vf::eq_int("size-after-failed-append", (long long)o->size(), g_keep_size); }
+            }
+            g_keep_size = -1;
             vf::cover(op, vf::mix(vf::mix(vf::fnv(subj), vf::fnv(sit)), vf::mix((std::uint64_t)j, mask)), true);
             vf::crumb(subj, op, s2, "after the %s call (inject-at=%d): reading every exposed element", threw ? "failed" : "completed", j);
             post(*o);
@@ -203,9 +208,9 @@ void static_vector_scenarios(unsigned which)
                 NoThrowScope g;
                 for (int i = 0; i < (int)N && i < 2; ++i) { other.emplace_back(20 + i); }
             }
-            SCN("emplace_back(args)", room >= 1, noexcept(vv.emplace_back(1)), v.emplace_back(5))
-            SCN("push_back(T const&)", room >= 1, noexcept(vv.push_back(ext[0])), v.push_back(ext[0]))
-            SCN("push_back(T&&)", room >= 1, noexcept(vv.push_back(static_cast<Th&&>(ext[0]))), Th t(5); v.push_back(static_cast<Th&&>(t)))
+            SCN("emplace_back(args)", room >= 1, noexcept(vv.emplace_back(1)), g_keep_size = n; v.emplace_back(5))
+            SCN("push_back(T const&)", room >= 1, noexcept(vv.push_back(ext[0])), g_keep_size = n; v.push_back(ext[0]))
+            SCN("push_back(T&&)", room >= 1, noexcept(vv.push_back(static_cast<Th&&>(ext[0]))), Th t(5); g_keep_size = n; v.push_back(static_cast<Th&&>(t)))
             SCN("emplace(pos,args)", room >= 1, noexcept(vv.emplace(vv.cbegin(), 1)), v.emplace(v.cbegin() + n / 2, 5))
             SCN("insert(pos,T const&)", room >= 1, noexcept(vv.insert(vv.cbegin(), ext[0])), v.insert(v.cbegin() + n / 2, ext[0]))
             SCN("insert(pos,T&&)", room >= 1, noexcept(vv.insert(vv.cbegin(), static_cast<Th&&>(ext[0]))), Th t(5); v.insert(v.cbegin(), static_cast<Th&&>(t)))
@@ -264,12 +269,12 @@ void inplace_vector_scenarios(unsigned which)
         }                                                                                                                                                   \
         return;                                                                                                                                             \
     }
-            SCN("try_emplace_back(args)", true, noexcept(vv.try_emplace_back(1)), v.try_emplace_back(5))
-            SCN("try_push_back(T const&)", true, noexcept(vv.try_push_back(ext)), v.try_push_back(ext))
-            SCN("try_push_back(T&&)", true, noexcept(vv.try_push_back(static_cast<Th&&>(ext))), Th t(5); v.try_push_back(static_cast<Th&&>(t)))
-            SCN("unchecked_emplace_back(args)", room >= 1, noexcept(vv.unchecked_emplace_back(1)), v.unchecked_emplace_back(5))
-            SCN("unchecked_push_back(T const&)", room >= 1, noexcept(vv.unchecked_push_back(ext)), v.unchecked_push_back(ext))
-            SCN("unchecked_push_back(T&&)", room >= 1, noexcept(vv.unchecked_push_back(static_cast<Th&&>(ext))), Th t(5); v.unchecked_push_back(static_cast<Th&&>(t)))
+            SCN("try_emplace_back(args)", true, noexcept(vv.try_emplace_back(1)), g_keep_size = n; v.try_emplace_back(5))
+            SCN("try_push_back(T const&)", true, noexcept(vv.try_push_back(ext)), g_keep_size = n; v.try_push_back(ext))
+            SCN("try_push_back(T&&)", true, noexcept(vv.try_push_back(static_cast<Th&&>(ext))), Th t(5); g_keep_size = n; v.try_push_back(static_cast<Th&&>(t)))
+            SCN("unchecked_emplace_back(args)", room >= 1, noexcept(vv.unchecked_emplace_back(1)), g_keep_size = n; v.unchecked_emplace_back(5))
+            SCN("unchecked_push_back(T const&)", room >= 1, noexcept(vv.unchecked_push_back(ext)), g_keep_size = n; v.unchecked_push_back(ext))
+            SCN("unchecked_push_back(T&&)", room >= 1, noexcept(vv.unchecked_push_back(static_cast<Th&&>(ext))), Th t(5); g_keep_size = n; v.unchecked_push_back(static_cast<Th&&>(t)))
             SCN("ctor(inplace_vector const&)", n >= 1, noexcept(V(vv)), V c(v); read_all(c))
             SCN("ctor(inplace_vector&&)", n >= 1, noexcept(V(static_cast<V&&>(vv))), V c(static_cast<V&&>(v)); read_all(c))
 #undef SCN
